@@ -76,6 +76,7 @@ func RunHistories(in, out string) error {
 }
 
 func runOne(enc *json.Encoder, h int, hist History, raw []json.RawMessage) {
+	windowBacking = map[string]any{} // shared backing arrays live for one history
 	pool := make([]*modeling.Mesh, hist.NSlots)
 	prev := make([]project.PMesh, hist.NSlots)
 	for i := range prev {
